@@ -31,3 +31,30 @@ Spec/Spec816.vos Spec/Spec816.vok Spec/Spec816.required_vos: Spec/Spec816.v Spec
 Spec/Spec816Examples.vo Spec/Spec816Examples.glob Spec/Spec816Examples.v.beautified Spec/Spec816Examples.required_vo: Spec/Spec816Examples.v Spec/ISA.vo Spec/Spec816.vo
 Spec/Spec816Examples.vio: Spec/Spec816Examples.v Spec/ISA.vio Spec/Spec816.vio
 Spec/Spec816Examples.vos Spec/Spec816Examples.vok Spec/Spec816Examples.required_vos: Spec/Spec816Examples.v Spec/ISA.vos Spec/Spec816.vos
+Snapshot/GenFields.vo Snapshot/GenFields.glob Snapshot/GenFields.v.beautified Snapshot/GenFields.required_vo: Snapshot/GenFields.v 
+Snapshot/GenFields.vio: Snapshot/GenFields.v 
+Snapshot/GenFields.vos Snapshot/GenFields.vok Snapshot/GenFields.required_vos: Snapshot/GenFields.v 
+Snapshot/GenCpu65.vo Snapshot/GenCpu65.glob Snapshot/GenCpu65.v.beautified Snapshot/GenCpu65.required_vo: Snapshot/GenCpu65.v Lib/ZOps.vo Lib/Machine.vo Snapshot/GenFields.vo
+Snapshot/GenCpu65.vio: Snapshot/GenCpu65.v Lib/ZOps.vio Lib/Machine.vio Snapshot/GenFields.vio
+Snapshot/GenCpu65.vos Snapshot/GenCpu65.vok Snapshot/GenCpu65.required_vos: Snapshot/GenCpu65.v Lib/ZOps.vos Lib/Machine.vos Snapshot/GenFields.vos
+Props/C01Base.vo Props/C01Base.glob Props/C01Base.v.beautified Props/C01Base.required_vo: Props/C01Base.v Spec/ISA.vo Spec/Spec816.vo Lib/ZOps.vo Lib/Machine.vo Snapshot/GenFields.vo Snapshot/GenCpu65.vo
+Props/C01Base.vio: Props/C01Base.v Spec/ISA.vio Spec/Spec816.vio Lib/ZOps.vio Lib/Machine.vio Snapshot/GenFields.vio Snapshot/GenCpu65.vio
+Props/C01Base.vos Props/C01Base.vok Props/C01Base.required_vos: Props/C01Base.v Spec/ISA.vos Spec/Spec816.vos Lib/ZOps.vos Lib/Machine.vos Snapshot/GenFields.vos Snapshot/GenCpu65.vos
+Props/C01OpsA.vo Props/C01OpsA.glob Props/C01OpsA.v.beautified Props/C01OpsA.required_vo: Props/C01OpsA.v Spec/ISA.vo Spec/Spec816.vo Lib/ZOps.vo Lib/Machine.vo Snapshot/GenFields.vo Snapshot/GenCpu65.vo Props/C01Base.vo
+Props/C01OpsA.vio: Props/C01OpsA.v Spec/ISA.vio Spec/Spec816.vio Lib/ZOps.vio Lib/Machine.vio Snapshot/GenFields.vio Snapshot/GenCpu65.vio Props/C01Base.vio
+Props/C01OpsA.vos Props/C01OpsA.vok Props/C01OpsA.required_vos: Props/C01OpsA.v Spec/ISA.vos Spec/Spec816.vos Lib/ZOps.vos Lib/Machine.vos Snapshot/GenFields.vos Snapshot/GenCpu65.vos Props/C01Base.vos
+Props/C01OpsB.vo Props/C01OpsB.glob Props/C01OpsB.v.beautified Props/C01OpsB.required_vo: Props/C01OpsB.v Spec/ISA.vo Spec/Spec816.vo Lib/ZOps.vo Lib/Machine.vo Snapshot/GenFields.vo Snapshot/GenCpu65.vo Props/C01Base.vo
+Props/C01OpsB.vio: Props/C01OpsB.v Spec/ISA.vio Spec/Spec816.vio Lib/ZOps.vio Lib/Machine.vio Snapshot/GenFields.vio Snapshot/GenCpu65.vio Props/C01Base.vio
+Props/C01OpsB.vos Props/C01OpsB.vok Props/C01OpsB.required_vos: Props/C01OpsB.v Spec/ISA.vos Spec/Spec816.vos Lib/ZOps.vos Lib/Machine.vos Snapshot/GenFields.vos Snapshot/GenCpu65.vos Props/C01Base.vos
+Props/C01OpsC.vo Props/C01OpsC.glob Props/C01OpsC.v.beautified Props/C01OpsC.required_vo: Props/C01OpsC.v Spec/ISA.vo Spec/Spec816.vo Lib/ZOps.vo Lib/Machine.vo Snapshot/GenFields.vo Snapshot/GenCpu65.vo Props/C01Base.vo
+Props/C01OpsC.vio: Props/C01OpsC.v Spec/ISA.vio Spec/Spec816.vio Lib/ZOps.vio Lib/Machine.vio Snapshot/GenFields.vio Snapshot/GenCpu65.vio Props/C01Base.vio
+Props/C01OpsC.vos Props/C01OpsC.vok Props/C01OpsC.required_vos: Props/C01OpsC.v Spec/ISA.vos Spec/Spec816.vos Lib/ZOps.vos Lib/Machine.vos Snapshot/GenFields.vos Snapshot/GenCpu65.vos Props/C01Base.vos
+Props/C01OpsD.vo Props/C01OpsD.glob Props/C01OpsD.v.beautified Props/C01OpsD.required_vo: Props/C01OpsD.v Spec/ISA.vo Spec/Spec816.vo Lib/ZOps.vo Lib/Machine.vo Snapshot/GenFields.vo Snapshot/GenCpu65.vo Props/C01Base.vo
+Props/C01OpsD.vio: Props/C01OpsD.v Spec/ISA.vio Spec/Spec816.vio Lib/ZOps.vio Lib/Machine.vio Snapshot/GenFields.vio Snapshot/GenCpu65.vio Props/C01Base.vio
+Props/C01OpsD.vos Props/C01OpsD.vok Props/C01OpsD.required_vos: Props/C01OpsD.v Spec/ISA.vos Spec/Spec816.vos Lib/ZOps.vos Lib/Machine.vos Snapshot/GenFields.vos Snapshot/GenCpu65.vos Props/C01Base.vos
+Props/C01OpsE.vo Props/C01OpsE.glob Props/C01OpsE.v.beautified Props/C01OpsE.required_vo: Props/C01OpsE.v Spec/ISA.vo Spec/Spec816.vo Lib/ZOps.vo Lib/Machine.vo Snapshot/GenFields.vo Snapshot/GenCpu65.vo Props/C01Base.vo
+Props/C01OpsE.vio: Props/C01OpsE.v Spec/ISA.vio Spec/Spec816.vio Lib/ZOps.vio Lib/Machine.vio Snapshot/GenFields.vio Snapshot/GenCpu65.vio Props/C01Base.vio
+Props/C01OpsE.vos Props/C01OpsE.vok Props/C01OpsE.required_vos: Props/C01OpsE.v Spec/ISA.vos Spec/Spec816.vos Lib/ZOps.vos Lib/Machine.vos Snapshot/GenFields.vos Snapshot/GenCpu65.vos Props/C01Base.vos
+Props/C01Props.vo Props/C01Props.glob Props/C01Props.v.beautified Props/C01Props.required_vo: Props/C01Props.v Spec/ISA.vo Spec/Spec816.vo Lib/ZOps.vo Lib/Machine.vo Snapshot/GenFields.vo Snapshot/GenCpu65.vo Props/C01Base.vo Props/C01OpsA.vo Props/C01OpsB.vo Props/C01OpsC.vo Props/C01OpsD.vo Props/C01OpsE.vo
+Props/C01Props.vio: Props/C01Props.v Spec/ISA.vio Spec/Spec816.vio Lib/ZOps.vio Lib/Machine.vio Snapshot/GenFields.vio Snapshot/GenCpu65.vio Props/C01Base.vio Props/C01OpsA.vio Props/C01OpsB.vio Props/C01OpsC.vio Props/C01OpsD.vio Props/C01OpsE.vio
+Props/C01Props.vos Props/C01Props.vok Props/C01Props.required_vos: Props/C01Props.v Spec/ISA.vos Spec/Spec816.vos Lib/ZOps.vos Lib/Machine.vos Snapshot/GenFields.vos Snapshot/GenCpu65.vos Props/C01Base.vos Props/C01OpsA.vos Props/C01OpsB.vos Props/C01OpsC.vos Props/C01OpsD.vos Props/C01OpsE.vos
